@@ -1,11 +1,14 @@
 package mon
 
 import (
+	"bufio"
 	"bytes"
 	"errors"
 	"fmt"
 	"io"
 	"math/rand/v2"
+	"os"
+	"path/filepath"
 	"strings"
 	"sync/atomic"
 	"testing/iotest"
@@ -38,7 +41,7 @@ func reportFieldRefs(level int) []string {
 	return refs
 }
 
-var literalPieces = []string{"", " ", "\n", "CVSS report: ", "| ", " |\n", "攻撃元区分: ", "é ü ß", "<b>", "</b>", "&amp;", "\"q\"", "'", "{", "}", "{ {", "}}", "%s %d", "\t", "\x00", "\\", "$x", "end", "{{`{{`}}"}
+var literalPieces = []string{"e\u0301", "か\u3099", "\u2126", "\u037e", "\u212b", "\u0301", "<a href=\"", "\">", "<script>", "</script>", "<p class=", ">", "", " ", "\n", "CVSS report: ", "| ", " |\n", "攻撃元区分: ", "é ü ß", "<b>", "</b>", "&amp;", "\"q\"", "'", "{", "}", "{ {", "}}", "%s %d", "\t", "\x00", "\\", "$x", "end", "{{`{{`}}"}
 
 type tmplGen struct {
 	rng  *rand.Rand
@@ -105,6 +108,10 @@ func (g *tmplGen) boolExpr(depth int) string {
 // valid generates a template that parses; most also execute.
 func (g *tmplGen) valid(depth int) string {
 	var sb strings.Builder
+	if depth == 2 && g.rng.IntN(12) == 0 { // a template that looks like an HTML document
+		sb.WriteString([]string{"<!DOCTYPE html>\n<html><body>", "<html>", "  <!doctype html><html lang=ja>", "\ufeff<HTML>"}[g.rng.IntN(4)])
+		sb.WriteString("<a href=\"{{" + g.ref() + "}}\">" + "<p title={{" + g.ref() + "}}>" + "<script>var s = {{" + g.ref() + "}};</script>")
+	}
 	n := 1 + g.rng.IntN(6)
 	for i := 0; i < n; i++ {
 		sb.WriteString(g.lit())
@@ -146,6 +153,14 @@ func (g *tmplGen) valid(depth int) string {
 			sb.WriteString("{{range $i, $c := " + g.ref() + "}}{{$i}}{{end}}")
 		case 15:
 			sb.WriteString("{{printf \"%-12s|%5.1s|\" " + g.ref() + " " + g.ref() + "}}")
+		}
+		switch g.rng.IntN(40) {
+		case 0: // a field that does not exist, in an argument position text/template never evaluates
+			sb.WriteString("{{or " + g.ref() + " .NoSuchField}}{{and \"\" .AlsoMissing}}")
+		case 1: // ... or in a branch that is never taken
+			sb.WriteString("{{if false}}{{.NoSuchField}}{{end}}{{if " + g.ref() + "}}x{{else}}{{.NoSuchField.Deeper}}{{end}}")
+		case 2:
+			sb.WriteString("{{with $u := \"\"}}{{.Missing}}{{else}}ok{{end}}")
 		}
 	}
 	sb.WriteString(g.lit())
@@ -342,21 +357,77 @@ func (c *chunkReader) Read(p []byte) (int, error) {
 	return k, nil
 }
 
-func checkReaders(w *W, rep lib.Report, vec, lang, text string, rng *rand.Rand) {
-	want, _, werr, _ := rep.ExportWithString(text)
-	c := tmplCase(rep, vec, lang, text)
-	readers := map[string]io.Reader{
-		"strings.Reader": strings.NewReader(text),
-		"bytes.Buffer":   bytes.NewBufferString(text),
-		"OneByteReader":  iotest.OneByteReader(strings.NewReader(text)),
-		"HalfReader":     iotest.HalfReader(strings.NewReader(text)),
-		"DataErrReader":  iotest.DataErrReader(strings.NewReader(text)),
-		"chunk+stutter":  &chunkReader{data: []byte(text), rng: rng, stutter: 5},
-		"chunk":          &chunkReader{data: []byte(text), rng: rng},
+// namedReader is a reader together with the content it will deliver.
+type namedReader struct {
+	name    string
+	rd      io.Reader
+	content string
+	cleanup func()
+}
+
+// readersFor builds readers of many shapes over text (and over suffixes of it, for readers already positioned).
+func readersFor(text string, rng *rand.Rand) []namedReader {
+	out := []namedReader{
+		{name: "strings.Reader", rd: strings.NewReader(text), content: text},
+		{name: "bytes.Buffer", rd: bytes.NewBufferString(text), content: text},
+		{name: "OneByteReader", rd: iotest.OneByteReader(strings.NewReader(text)), content: text},
+		{name: "HalfReader", rd: iotest.HalfReader(strings.NewReader(text)), content: text},
+		{name: "DataErrReader", rd: iotest.DataErrReader(strings.NewReader(text)), content: text},
+		{name: "chunk+stutter", rd: &chunkReader{data: []byte(text), rng: rng, stutter: 5}, content: text},
+		{name: "chunk", rd: &chunkReader{data: []byte(text), rng: rng}, content: text},
+		{name: "bufio.Reader", rd: bufio.NewReaderSize(strings.NewReader(text), 16), content: text},
+		{name: "io.MultiReader", rd: io.MultiReader(strings.NewReader(text[:len(text)/2]), strings.NewReader(text[len(text)/2:])), content: text},
+		{name: "io.LimitReader", rd: io.LimitReader(strings.NewReader(text+"{{.Nope}}"), int64(len(text))), content: text},
 	}
-	for name, rd := range readers {
+	// a strings.Reader and a bytes.Reader already positioned after k bytes
+	k := 0
+	if len(text) > 0 {
+		k = rng.IntN(len(text) + 1)
+	}
+	sr := strings.NewReader(text)
+	sr.Seek(int64(k), io.SeekStart)
+	out = append(out, namedReader{name: fmt.Sprintf("strings.Reader at offset %d", k), rd: sr, content: text[k:]})
+	// an io.Pipe fed by another goroutine in small writes
+	pr, pw := io.Pipe()
+	go func() {
+		b := []byte(text)
+		for len(b) > 0 {
+			n := min(len(b), 1+len(b)/3)
+			pw.Write(b[:n])
+			b = b[n:]
+		}
+		pw.Close()
+	}()
+	out = append(out, namedReader{name: "io.Pipe", rd: pr, content: text})
+	// regular files: at offset 0 and after k bytes were already consumed
+	if dir := os.Getenv("VERIF_DIR"); dir != "" {
+		for _, off := range []int{0, k} {
+			f, err := os.CreateTemp(filepath.Join(dir, "out"), "tmpl-*.txt")
+			if err != nil {
+				continue
+			}
+			f.WriteString(text)
+			f.Seek(0, io.SeekStart)
+			if off > 0 {
+				io.CopyN(io.Discard, f, int64(off))
+			}
+			name := f.Name()
+			out = append(out, namedReader{name: fmt.Sprintf("*os.File at offset %d", off), rd: f, content: text[off:], cleanup: func() { f.Close(); os.Remove(name) }})
+		}
+	}
+	return out
+}
+
+func checkReaders(w *W, rep lib.Report, vec, lang, text string, rng *rand.Rand) {
+	c := tmplCase(rep, vec, lang, text)
+	for _, nr := range readersFor(text, rng) {
 		w.Eval(1)
-		got, gotNil, gerr, pan := rep.ExportWith(rd)
+		want, _, werr, _ := rep.ExportWithString(nr.content)
+		got, gotNil, gerr, pan := rep.ExportWith(nr.rd)
+		if nr.cleanup != nil {
+			nr.cleanup()
+		}
+		name := nr.name
 		c.Args["reader"] = name
 		if pan != nil {
 			w.Violate(Violation{Monitor: "C19", Check: "ExportWith does not panic", Case: c, Observed: pan.Value})
